@@ -137,9 +137,12 @@ def read_file_using_fast_csv_reader(source: Union[str, StringIO],
             column_vals = np.zeros(np.int64(column_val_total_count), dtype=np.uint8)
             
         # reassign
-        if is_indices_full or is_values_full:
+        if (is_indices_full or is_values_full) and offset_pos < len(content):
             start_index = offset_pos
         else:
+            # also when the index buffer became full on the last record of the window: nothing is left to
+            # re-read, move on to the next window
+            is_indices_full, is_values_full = False, False
             chunk_index += offset_pos
 
         hasHeader = False
